@@ -236,6 +236,35 @@ func c14(c *an.Ctx) {
 		if !okB {
 			o.Fail(p.Pos(bf.Pos()), "batch results: a missing/nil entry for a non-nullable batch field no longer fails")
 		}
+		// per entry: an index may be left unfilled only when enforceNoNilResps is false
+		var stores []ssa.Instruction
+		var hdr *ssa.BasicBlock
+		an.Instrs(bf, func(i ssa.Instruction) {
+			st, ok := i.(*ssa.Store)
+			if !ok {
+				return
+			}
+			if ia, ok := st.Addr.(*ssa.IndexAddr); ok && an.IsRangeIndex(ia.Index) && strings.Contains(ia.X.Type().String(), "interface") {
+				if S := loopSliceOf(ia.Index); S != nil && S == ssa.Value(bf.Params[2]) {
+					stores = append(stores, i)
+					hdr = an.LoopHeaderOf(i)
+				}
+			}
+		})
+		if hdr == nil {
+			o.Fail(p.Pos(bf.Pos()), "batch results are not copied out per index")
+		} else {
+			blk := an.NewBlocker(stores...)
+			for _, ci := range an.CondIfs(bf, func(v ssa.Value) bool { return strings.HasSuffix(an.Expr(v), ".enforceNoNilResps") }) {
+				if an.LoopHeaderOf(ci.If) == hdr {
+					blk.AddEdge(ci.If.Block(), ci.False)
+				}
+			}
+			body := hdr.Succs[0]
+			if an.Reach(bf, body.Instrs[0], blk)[hdr.Instrs[0]] {
+				o.Fail(p.InstrPos(body.Instrs[0]), "a batch result entry can be skipped (left null) without enforceNoNilResps having been consulted for that entry: a NonNullable batch field returns null for a source whose entry is nil or missing although the map is large enough")
+			}
+		}
 		en := c.NeedFunc(gq, "resolveEnumBatch")
 		okE := false
 		for _, e := range an.Exits(en, false) {
